@@ -133,6 +133,12 @@ func init() {
 		}
 		return p
 	})
+	add("data.ReadMappingValues", "MappingValues", func(in []byte) Parsed {
+		l, _ := data.NewIntegerFromInt(len(in)&0xffff, 2)
+		v, _, errs := data.ReadMappingValues(in, *l)
+		ok, e := mappingAccepted(errs)
+		return Parsed{OK: ok && v != nil, Err: e, Val: v}
+	})
 	// ---- certificate / key certificate
 	add("certificate.ReadCertificate", "Certificate", func(in []byte) Parsed {
 		c, rem, err := certificate.ReadCertificate(in)
